@@ -2,11 +2,18 @@
 # runs every committed behaviour-preserving change (benign/<id>/patch.diff) through all checks, 6 at a time;
 # any report is a false alarm. The changes of the one class that is a known limit (DESIGN.md 5.4c: a helper of the
 # reference tree inlined away) are listed in benign/KNOWN_ALARMS and expected to alarm.
+# usage: benignall.sh [id...]      exit 1 when a change outside KNOWN_ALARMS is reported
 cd "$(dirname "$0")/.."
 one() {
   d=$1; id=$(basename "$d")
   out=$(tools/benigntest.sh "$d/patch.diff" 2>&1)
-  if echo "$out" | grep -q '^silent$'; then echo "$id silent"; else echo "$id ALARMS: $(echo "$out" | grep 'rule=' | sed 's/.*rule=//' | sort | uniq -c | tr '\n' ' ')"; fi
+  if echo "$out" | grep -q '^silent$'; then echo "$id silent"
+  elif grep -qx "$id" benign/KNOWN_ALARMS 2>/dev/null; then echo "$id alarms (known limit): $(echo "$out" | grep 'rule=' | sed 's/.*rule=//' | sort | uniq -c | tr '\n' ' ')"
+  else echo "$id ALARMS: $(echo "$out" | grep 'rule=' | sed 's/.*rule=//' | sort | uniq -c | tr '\n' ' ')"; fi
 }
 export -f one
-ls -d benign/*/ | sed 's|/$||' | xargs -P 6 -I{} bash -c 'one {}' | sort
+if [ $# -gt 0 ]; then list=$(for i in "$@"; do echo benign/$i; done); else list=$(ls -d benign/*/ | sed 's|/$||'); fi
+res=$(echo "$list" | xargs -P 6 -I{} bash -c 'one {}' | sort)
+echo "$res"
+echo "silent: $(echo "$res" | grep -c ' silent$')  known limit: $(echo "$res" | grep -c 'known limit')  unexpected: $(echo "$res" | grep -c ' ALARMS:')"
+! echo "$res" | grep -q ' ALARMS:'
